@@ -30,6 +30,24 @@ PROPS = {
         "trusted": ["the terminal model: ESC[0m / ESC[m clear, any other SGR parameter string is added", LIBS["regexp"]],
         "assumptions": ["input text is ESC-free (it went through Scrub, C01)"],
     },
+    "C02": {
+        "groups": [{"name": "C02", "quick": 1200, "thorough": 40000, "workers": 12}],
+        "rule": "multi-host worlds over five loopback TLS hosts: two actors on different hosts, a forged actor document, a thread of notes with replies, a replies collection and a paged outbox, where every reference is chosen among URL, embedded copy (stamped by the embedding host), stub of <= 2 keys, redirect; ids sometimes lie about their host; authors/actors/reply targets are sometimes impostors; start object chosen among all; "
+                "compared: the whole item tree (kinds, ids, names = serving-host stamps, creators, parents, listed children); non-trivial = at least one child or ancestor is listed; distinct by op content",
+        "trusted": ["crypto/tls, net; url.Parse (String/Host) as an oracle table; json decoding as an oracle table",
+                    "references are absolute in generated worlds (ResolveReference is the identity; asserted by the harness)",
+                    "goroutine fan-out in the constructors is an order-preserving map"],
+        "assumptions": ["FetchURL semantics are those of the jtp model (C03), composed into the world by the driver"],
+        "shrink_budget": 3,
+    },
+    "C09": {
+        "groups": [{"name": "C02", "quick": 1200, "thorough": 40000, "workers": 12}],
+        "rule": "the same multi-host worlds as C02 (outboxes and reply collections mixing legitimate entries with other-actor activities, other-parent comments, foreign-host authors, missing ids/actors/reply targets, embedded vs referenced, failing fetches); "
+                "compared: per-position classification of every listed entry; predicates on the implementation's output: a listed activity's actor id equals the owner's id, a listed reply's parent id equals the post's id, authors share the post's host; non-trivial = at least one child or ancestor is listed; distinct by op content",
+        "trusted": ["as C02"],
+        "assumptions": [],
+        "shrink_budget": 3,
+    },
     "C03": {
         "groups": [{"name": "C03", "quick": 1600, "thorough": 40000, "workers": 8}],
         "rule": "status / Content-Type / Location lines and header blocks from a grammar with mutations (case, blanks, CR, missing newline, odd versions and codes); worlds of 1..4 documents and 0..25 redirects over five loopback TLS hosts (relative and cross-host Locations, non-https hops, missing/unparsable Location, self loops and cycles, chains around the budget of 20, odd status lines, content types, bodies) x sequences of 1..8 fetches (cache warm-up); "
@@ -156,6 +174,18 @@ MANIFEST_TEXT = {
         "design_ref": "DESIGN.md §5 C14",
         "note": "Trusted: Lean kernel; correspondence check (testing); the terminal model of SGR.",
         "technique": "Lean 4 proof (cell-level refinement of the ANSI layer) + differential correspondence with a terminal state machine",
+    },
+    "C02": {
+        "text": "Lean theorems over an arbitrary world (fetch function): FetchUnknown returns an object with an id only if that object was served by the id's host (directly, or re-fetched, or embedded in a document from it), and the constructors only ever pass an enclosing object's own validated id as source, so every item of a built tree has provenance at its id's host; a foreign embedded object is re-fetched or rejected as forged. Tied to client.go/pub by differential correspondence on whole item trees over multi-host TLS worlds whose every body is stamped with the serving host; the stamp-vs-id predicate is evaluated on every implementation output.",
+        "design_ref": "DESIGN.md §5 C02",
+        "note": "Trusted: Lean kernel; correspondence check (testing); net/url host parsing as a parameter; TLS.",
+        "technique": "Lean 4 proof (provenance invariant through FetchUnknown and the constructors) + differential correspondence over multi-host simulator worlds",
+    },
+    "C09": {
+        "text": "Lean theorems: an outbox element is delivered as an activity iff construction succeeded, the owner has an id and the activity's resolved actor id equals it; a reply element is delivered as a post iff its resolved inReplyTo id equals the post's id; a post is built only if every resolved author shares its host; listings keep one entry per element in order, failures in place. Tied to pub by differential correspondence on listings over multi-host worlds with impostors; genuineness predicates are evaluated on every implementation output.",
+        "design_ref": "DESIGN.md §5 C09",
+        "note": "Trusted: as C02.",
+        "technique": "Lean 4 proof (case analysis of the listing filters, positions via the paging theorems) + differential correspondence",
     },
     "C03": {
         "text": "Lean theorems for all response byte strings, worlds, budgets and caches: an exchange yields a document iff the status is 200-203, at least one Content-Type line is present, every Content-Type line names a tolerated type, the header block is terminated; a fetch succeeds only along a chain of https hops within the budget whose last response is such a document, source = URL of that response, at most budget+1 requests; every sound cache (any eviction) is transparent: same result as with an empty cache. Tied to jtp.go by differential correspondence on the recognisers and on jtp.Get against a loopback TLS simulator, request log included.",
